@@ -14,7 +14,6 @@ contiguous; raising in both = `op_failed_both` (counted, snapshots still compare
 written-to tensor refers to a single memory location" / "leaf Variable that requires grad ... in-place" raised only in the
 generated layout = an *attempted* in-place write on caller memory.
 """
-import copy
 import os
 
 import torch
@@ -254,6 +253,7 @@ class Tracker:
         self.items = []  # [role, name, literal-or-None, tensor]
         self.ids = set()
         self.snaps = []
+        self.snapped = False
 
     def add(self, role, name, l, t):
         if not torch.is_tensor(t) or id(t) in self.ids:
@@ -264,9 +264,12 @@ class Tracker:
             return
         self.ids.add(id(t))
         self.items.append([role, name, l, t])
+        if self.snapped:  # a caller tensor created between two steps (cotangent of a result)
+            self.snaps.append(_snap(t))
 
     def snapshot(self):
         self.snaps = [_snap(it[3]) for it in self.items]
+        self.snapped = True
 
     def compare(self, grad_meta_ok=False):
         """The most severe difference over all tracked tensors (values > metadata > version counter), or None."""
@@ -340,12 +343,16 @@ def _shape_attr(op):
 PD_OPS = [
     "solve", "solve", "inv_quad", "inv_quad_logdet", "inv_quad_logdet", "logdet", "cholesky", "root_decomposition", "root_decomposition",
     "root_inv_decomposition", "root_inv_decomposition", "diagonalization", "eigh", "pivoted_cholesky", "pivoted_cholesky", "add_low_rank",
-    "cat_rows", "sqrt_inv_matmul", "samples", "precond", "precond", "backward_solve", "backward_iql",
+    "cat_rows", "sqrt_inv_matmul", "samples", "precond", "precond", "backward_solve", "backward_iql", "backward_of", "backward_of", "backward_of",
 ]
-SQ_OPS = ["diagonal", "add_diagonal", "add_jitter", "add_jitter"]
-ANY_OPS = ["matmul", "matmul", "rmatmul", "to_dense", "getitem", "getitem", "svd", "add", "sub", "mul", "div", "backward_matmul", "detach_", "requires_grad_"]
+SQ_OPS = ["diagonal", "add_diagonal", "add_jitter", "add_jitter", "svd"]
+ANY_OPS = ["matmul", "matmul", "rmatmul", "to_dense", "getitem", "getitem", "add", "sub", "mul", "div", "backward_matmul", "detach_", "requires_grad_"]
 OP2_OPS = ["matmul", "to_dense", "add_jitter", "mul", "add", "getitem"]
-RG_OPS = {"backward_matmul", "backward_solve", "backward_iql"}
+RG_OPS = {"backward_matmul", "backward_solve", "backward_iql", "backward_of"}
+DIFF_OPS = [
+    "inv_quad", "logdet", "root_decomposition", "root_inv_decomposition", "diagonalization", "sqrt_inv_matmul", "pivoted_cholesky", "to_dense",
+    "diagonal", "add_diagonal", "cholesky", "solve", "samples", "inv_quad_logdet", "eigh", "add_low_rank", "matmul",
+]
 
 
 def _rhs_shape(draw, batch, n):
@@ -410,7 +417,7 @@ def _gen_step(draw, name, shape, dt, rg=False):
         if name == "backward_iql" or draw(st.integers(0, 3)):
             c = draw(st.integers(1, 3))
             s["rhs"] = mark(T(tuple(batch) + (n, c), exp_ok=not rg))
-        s["logdet"] = True if name == "backward_iql" else draw(st.booleans())
+        s["logdet"] = True if (name == "backward_iql" or "rhs" not in s) else draw(st.booleans())
         if name == "backward_iql":
             s["cot"] = T(batch, exp_p=1)
             s["cot2"] = T(batch, exp_p=1)
@@ -423,7 +430,7 @@ def _gen_step(draw, name, shape, dt, rg=False):
         if s["method"] == "lanczos" and draw(st.integers(0, 3)):
             k = draw(st.integers(1, 3))
             s["init"] = T(tuple(batch) + (n, k))
-            if draw(st.booleans()):
+            if k > 1 or draw(st.booleans()):  # (several initial vectors are ranked by means of the test vectors)
                 s["test"] = T(tuple(batch) + (n, k))
     elif name == "diagonalization":
         s["method"] = draw(st.sampled_from([None, "lanczos", "symeig"]))
@@ -458,7 +465,7 @@ def _gen_step(draw, name, shape, dt, rg=False):
         if kind == "scalar":
             s["scalar"] = draw(st.sampled_from([2.0, 0.5, 3.0]))
         else:
-            shp = {"tensor0": (), "const": tuple(batch), "full": (m, n), "batched": tuple(batch) + (m, n)}[kind]
+            shp = {"tensor0": (), "const": tuple(batch) + (1, 1), "full": (m, n), "batched": tuple(batch) + (m, n)}[kind]
             s["other"] = T(shp, lo=1, hi=16)
         s["side"] = draw(st.sampled_from(["left", "left", "right"])) if name in ("add", "mul") else "left"
     elif name == "samples":
@@ -467,6 +474,13 @@ def _gen_step(draw, name, shape, dt, rg=False):
         s["rhs"] = T(tuple(batch) + (n, draw(st.integers(1, 2))))
     elif name == "requires_grad_":
         s["val"] = draw(st.booleans())
+    elif name == "backward_of":
+        # backward through any differentiable operation; the cotangent takes the shape of the result at run time:
+        # either the cycled values below in a drawn layout, or a stride-0 expansion of one value (what .sum().backward() passes)
+        s["of"] = _gen_step(draw, draw(st.sampled_from(DIFF_OPS)), shape, dt, rg=True)
+        s["cotv"] = gen.grid(draw, (6,), -16, 16)
+        s["cotlay"] = draw(st.sampled_from(LAYS))
+        s["cotexp"] = draw(st.booleans())
     return s
 
 
@@ -492,6 +506,8 @@ def op_cases(draw, tier):
         first = "precond"
         heads = ["AddedDiag", "AddedDiag", "KroneckerAddedDiag", "LowRankRootAddedDiag"]
     r = draw(gen.recipes(dom, max_depth=max_depth, max_dim=6 if tier == "quick" else 8, exclude=ex, batches=BATCHES, layouts=True, head=heads))
+    if "all_zero_interp_values" in avoid:
+        _nonzero_interp_values(r)
     shape = refmodel.shape(r)
     dt = R.dtype_of(r)
     pool = list(ANY_OPS)
@@ -507,7 +523,8 @@ def op_cases(draw, tier):
     _tag_recipe(draw, r, rg=rg)
     cellnames = ["default", "default"] + sorted(CELLS)
     cell = draw(st.sampled_from(cellnames if first is None else ["chol0_precond", "chol0_precond", "default"]))
-    if "iql_backward_stochastic_path" in avoid and "backward_iql" in names and _stochastic_logdet(CELLS[cell]):
+    iql_avoid = "iql_backward_stochastic_path" in avoid
+    if iql_avoid and "backward_iql" in names and _stochastic_logdet(CELLS[cell]):
         cell = draw(st.sampled_from(["default", "chol0_nofast_logprob"]))
     case = {"kind": "ops", "recipe": r, "cell": cell, "settings": dict(CELLS[cell]), "steps": []}
     second_shape = None
@@ -523,8 +540,10 @@ def op_cases(draw, tier):
         on = 0
         if second_shape is not None and i > 0 and draw(st.integers(0, 2)) == 0:
             on = 1
-            nm = draw(st.sampled_from(OP2_OPS))
+            nm = draw(st.sampled_from([o for o in OP2_OPS if o != "add_jitter" or second_shape[-1] == second_shape[-2]]))
         step = _gen_step(draw, nm, second_shape if on else shape, dt, rg=rg and nm in RG_OPS)
+        if iql_avoid and _is_iql_backward(step) and _stochastic_logdet(CELLS[cell]):
+            step["of"] = _gen_step(draw, "inv_quad", shape, dt, rg=True)
         step["on"] = on
         case["steps"].append(step)
     return case
@@ -631,7 +650,7 @@ def _run_step(op, s, a):
     if nm in ("backward_matmul", "backward_solve"):
         res = op.matmul(a["rhs"]) if nm == "backward_matmul" else op.solve(a["rhs"])
         if tuple(res.shape) == tuple(a["cot"].shape) and res.requires_grad:
-            res.backward(a["cot"])
+            res.backward(a["cot"], retain_graph=True)  # (the layouts of rg tensors are views derived from a leaf)
         return res
     if nm == "backward_iql":
         iq, ld = op.inv_quad_logdet(a.get("rhs"), logdet=True)
@@ -641,13 +660,33 @@ def _run_step(op, s, a):
                 outs.append(val)
                 cots.append(c)
         if outs:
-            torch.autograd.backward(outs, cots)
+            torch.autograd.backward(outs, cots, retain_graph=True)
         return [iq, ld]
+    if nm == "backward_of":
+        res = _run_step(op, s["of"], a)
+        outs = [t for t in _force(res) if t.is_floating_point() and t.requires_grad]
+        cots = [a["_late"]("cot%d" % j, _cot_lit(s, tuple(t.shape), L.RDT[t.dtype])) for j, t in enumerate(outs)]
+        if outs:
+            torch.autograd.backward(outs, cots, retain_graph=True)
+        return res
     if nm == "detach_":
         return op.detach_()
     if nm == "requires_grad_":
         return op.requires_grad_(s["val"])
     raise HarnessError("unknown operation %r" % nm)
+
+
+def _cot_lit(s, shape, dt):
+    n = _prod(shape)
+    if s["cotexp"] and any(d > 1 for d in shape):
+        l = L.lit(gen._nest([s["cotv"][0]], tuple(1 for _ in shape)), dt)
+        l["exp"] = list(shape)
+    else:
+        flat = [s["cotv"][i % len(s["cotv"])] for i in range(max(n, 1))]
+        l = L.lit(gen._nest(flat, tuple(shape)) if shape else flat[0], dt)
+    if s["cotlay"] != "c" and shape:
+        l["lay"] = s["cotlay"]
+    return l
 
 
 def _mat(l, plain):
@@ -658,6 +697,15 @@ def _mat(l, plain):
 
 def _step_args(s, plain, tracker, tag):
     a = {}
+    if "of" in s:
+        a.update(_step_args(s["of"], plain, tracker, tag + ".of"))
+
+        def late(name, l):
+            t = _mat(l, plain)
+            tracker.add("cotangent", "%s.%s" % (tag, name), l, t)
+            return t
+
+        a["_late"] = late
     for k, v in s.items():
         if L.is_lit(v):
             a[k] = _mat(v, plain)
@@ -712,6 +760,12 @@ def _run_ops(case, plain):
         return out
     for i, (l, t) in enumerate(ctx.tensors):
         tracker.add("defining", "recipe.t%d" % i, l, t)
+    # the constructors are operations too: every defining tensor must still look like a fresh materialisation of its literal
+    for i, (l, t) in enumerate(ctx.tensors):
+        d = _diff(t, _snap(L.materialise(l)))
+        if d is not None:
+            out.violation = ("C13|construct|defining|%s|%s" % (head, d[0]), "constructing %s: tensor recipe.t%d [layout %s, shape %s] %s" % (R.class_path(r), i, _laycode(l, t), tuple(t.shape), d[1]))
+            return out
     ops = [op]
     heads = [head]
     shared = False
@@ -724,7 +778,7 @@ def _run_ops(case, plain):
                 ops.append(_second_op(case["second"]["cls"], ts[0]))
                 heads.append(case["second"]["cls"])
                 shared = True
-            except Exception as e:  # noqa: BLE001
+            except Exception:  # noqa: BLE001
                 out.labels.append("second_ctor_failed")
     for k, o in enumerate(ops):
         extra = []
@@ -757,7 +811,7 @@ def _run_ops(case, plain):
         k = s.get("on", 0)
         if k >= len(ops):
             continue
-        o, hd, nm = ops[k], heads[k], s["op"]
+        o, hd, nm = ops[k], heads[k], _opname(s)
         if nm in ("detach_", "requires_grad_"):
             grad_meta_ok = True
         with state.linalg_log() as lines:
@@ -808,6 +862,8 @@ def _run_ops(case, plain):
                 it, (symptom, detail) = bad
                 fail("to_dense", it[0], heads[kk], symptom, "to_dense after step %d: tensor %s %s" % (i, it[1], detail))
                 return out
+    out.layouts = tracker.layout_vector()
+    out.nontrivial = shared or any(not v.endswith(":c") for v in out.layouts)
     return out
 
 
@@ -933,10 +989,10 @@ def util_cases(draw, tier):
         a["idx"] = _targ(draw, dt, tuple(batch) + (cols, k), ints=(0, num_rows - 1))
         a["val"] = T(tuple(batch) + (cols, k))
         zeros = draw(st.sampled_from(["asis", "asis", "all", "all_negzero"]))
-        if zeros != "asis" and "make_sparse_all_zero_values" not in avoid:
+        if zeros != "asis" and "all_zero_interp_values" not in avoid:
             z = 0.0 if zeros == "all" else -0.0
             a["val"]["lit"] = gen._map2(a["val"]["lit"], lambda v: z)
-        if "make_sparse_all_zero_values" in avoid and _all_zero(a["val"]["lit"]):
+        if "all_zero_interp_values" in avoid and _all_zero(a["val"]["lit"]):
             a["val"]["lit"] = gen._map2(a["val"]["lit"], lambda v: 1.0)
         case["num_rows"] = num_rows
     elif fn == "bdsmm":
@@ -1109,7 +1165,8 @@ def _run_util(case, plain):
             res = sparse.sparse_getitem(sp, idx if len(idx) > 1 else idx[0])
             return res.to_dense() if torch.is_tensor(res) and res.layout != torch.strided else res
         if fn == "sparse_repeat":
-            return sparse.sparse_repeat(sp, *case["reps"]).to_dense()
+            reps = case["reps"]
+            return (sparse.sparse_repeat(sp, tuple(reps)) if len(reps) == 1 else sparse.sparse_repeat(sp, *reps)).to_dense()
         if fn == "to_sparse":
             return sparse.to_sparse(a["dense"]).to_dense()
         if fn == "left_interp":
@@ -1171,8 +1228,12 @@ def _execute(case, plain):
     return _run_util(case, plain) if case["kind"] == "util" else _run_ops(case, plain)
 
 
+def _opname(s):
+    return s["op"] + (":" + s["of"]["op"] if "of" in s else "")
+
+
 def _opnames(case):
-    return [case["fn"]] if case["kind"] == "util" else [s["op"] for s in case["steps"]]
+    return [case["fn"]] if case["kind"] == "util" else [_opname(s) for s in case["steps"]]
 
 
 def check(case):
@@ -1193,6 +1254,8 @@ def check(case):
             opn = "build" if i < 0 else names[i]
             if i in plain_out.errors:
                 labels.append("failed_both:%s:%s" % (opn, X.describe(e)))
+                if _is_inplace_error(e):  # an in-place kernel aimed at an expanded tensor / a leaf in BOTH layouts: made visible
+                    labels.append("inplace_error_both:%s:%s" % (opn, X.describe(e)))
                 continue
             if _is_inplace_error(e):
                 role = _guess_role(case, i, e)
@@ -1252,28 +1315,51 @@ def _all_zero(v):
     return v == 0
 
 
+def _zero_interp_nodes(r):
+    return [n for n in R.walk(r) if n["op"] == "Interpolated" and (_all_zero(n["lv"]["lit"]) or _all_zero(n["rv"]["lit"]))]
+
+
+def _nonzero_interp_values(r):
+    """Generator-side avoidance: an all-zero block of interpolation values becomes all ones (both sides alike)."""
+    for n in _zero_interp_nodes(r):
+        for k in ("lv", "rv"):
+            if _all_zero(n[k]["lit"]):
+                n[k]["lit"] = gen._map2(n[k]["lit"], lambda v: 1.0)
+
+
 def _trig_make_sparse(case):
-    return case.get("kind") == "util" and case.get("fn") == "make_sparse" and _all_zero(case["args"]["val"]["lit"])
+    """All-zero interpolation values reach make_sparse_from_indices_and_values (directly or through InterpolatedLinearOperator)."""
+    if case.get("kind") == "util":
+        return case.get("fn") == "make_sparse" and _all_zero(case["args"]["val"]["lit"])
+    return bool(_zero_interp_nodes(case["recipe"]))
 
 
 def _stochastic_logdet(cell):
     return cell.get("max_cholesky_size") == 0 and cell.get("fast.log_prob", True)
 
 
+def _is_iql_backward(s):
+    """A backward pass through InvQuadLogdet with a logdet cotangent."""
+    if s["op"] == "backward_iql":
+        return True
+    of = s.get("of") or {}
+    return s["op"] == "backward_of" and (of.get("op") == "logdet" or (of.get("op") == "inv_quad_logdet" and of.get("logdet")))
+
+
 def _trig_iql_backward(case):
-    return case.get("kind") == "ops" and any(s["op"] == "backward_iql" for s in case["steps"]) and _stochastic_logdet(case.get("settings") or {})
+    return case.get("kind") == "ops" and any(_is_iql_backward(s) for s in case["steps"]) and _stochastic_logdet(case.get("settings") or {})
 
 
 TRIGGERS = {
     "iql_backward_stochastic_path": _trig_iql_backward,
     "sparse_getitem_no_entry_selected": _trig_sparse_getitem,
-    "make_sparse_all_zero_values": _trig_make_sparse,
+    "all_zero_interp_values": _trig_make_sparse,
 }
 
 
 def gaps(labels):
     out = []
-    seen = {k.split(":", 1)[1] for k in labels if k.startswith("op:")}
+    seen = {k.split(":")[1] for k in labels if k.startswith("op:")}
     want = set(ANY_OPS + SQ_OPS + PD_OPS + UTILS)
     out += ["operation never generated: " + o for o in sorted(want - seen)]
     for lay in ("c", "t", "s", "n", "ec"):
@@ -1288,5 +1374,3 @@ def gaps(labels):
 def coverage_extra():
     return {"open_triggers_avoided_by_generator": sorted(_open_triggers()), "settings_cells": CELLS}
 
-
-assert copy  # (kept for deepcopy-based debugging helpers)
